@@ -242,6 +242,14 @@ macro_rules! from_float {
                     let inside = unsat >= $lo && unsat <= $hi;
                     if inside {
                         $s.count(concat!("from_float:", stringify!($T), ":in-range"));
+                        // which branch of the conversion: the exact remainder after truncation
+                        let es = e + $k as i32;
+                        $s.count(if m == 0 { "from_float:branch:zero" } else if es >= 0 { "from_float:branch:integer(rem=0)" } else if -es >= 100 { "from_float:branch:tiny(rem<1/2)" } else {
+                            let g = 1u128 << (-es);
+                            let r = (m as u128) % g;
+                            if r == 0 { "from_float:branch:integer(rem=0)" } else if 2 * r == g { if neg { "from_float:branch:rem=-1/2(tie)" } else { "from_float:branch:rem=+1/2(tie)" } }
+                            else if 2 * r > g { if neg { "from_float:branch:rem<-1/2" } else { "from_float:branch:rem>1/2" } } else { "from_float:branch:|rem|<1/2" }
+                        });
                         $s.oracle("from_float-nearest-ties-away", got == Ok(want),
                             || format!("{name}::{}({}{}*2^{} bits {:#x})", stringify!($from), if neg { "-" } else { "" }, m, e, x.to_bits()),
                             || format!("got {got:?} want {want} (exact value * 2^{} rounded half away from zero)", $k));
@@ -259,6 +267,17 @@ macro_rules! from_float {
         }
         // monotone: x <= y => from(x) <= from(y)
         seen.sort_by(|a, b| a.0.partial_cmp(&b.0).unwrap());
+        // the model's float comparison (hypothesis of the monotonicity theorem) against the real `<=`
+        for (i, w) in seen.windows(2).enumerate() {
+            if i % 7 == 0 {
+                let (x, y) = (w[0].0, w[1].0);
+                let fb = std::mem::size_of::<$fty>() * 8;
+                $s.case("float <=", format!("fl.le {} {} {}", fb, x.to_bits(), y.to_bits()), ((x <= y) as u8).to_string());
+                $s.case("float <=", format!("fl.le {} {} {}", fb, y.to_bits(), x.to_bits()), ((y <= x) as u8).to_string());
+                let z = seen[(i * 31 + 7) % seen.len()].0;
+                $s.case("float <=", format!("fl.le {} {} {}", fb, x.to_bits(), z.to_bits()), ((x <= z) as u8).to_string());
+            }
+        }
         for w in seen.windows(2) {
             $s.oracle("from_float-monotone", w[0].1 <= w[1].1,
                 || format!("{}::{}: x = bits {:#x} <= y = bits {:#x}", stringify!($T), stringify!($from), w[0].0.to_bits(), w[1].0.to_bits()),
@@ -286,6 +305,20 @@ macro_rules! to_float {
         $s.oracle("to_float-exact", exact, || format!("{}({}).{}()", stringify!($T), $raw, stringify!($to)), || show($dec(f)));
         $s.oracle("float-roundtrip", $T::$from(f) == t, || format!("{}({})", stringify!($T), $raw), || format!("{}", $T::$from(f).to_bits()));
     }};
+}
+
+/// is `x + 0.5` exactly representable with `p` significant bits (x = ±m·2^e)?
+fn sum_class(neg: bool, m: u64, e: i32, p: u32) -> &'static str {
+    if m == 0 { return "x=0"; }
+    let (a, _e0): (i128, i32) = if e >= 0 {
+        if e > 60 { return "sum-inexact(|x|>=2^60)"; }
+        ((if neg { -1 } else { 1 }) * ((m as i128) << (e + 1)) + 1, -1)
+    } else {
+        if -1 - e > 100 { return "sum-inexact(tiny x)"; }
+        ((if neg { -1 } else { 1 }) * (m as i128) + (1i128 << (-1 - e)), e)
+    };
+    let bits = 128 - a.unsigned_abs().leading_zeros();
+    if a == 0 { "sum=0" } else if bits <= p { "sum-exact" } else if a.unsigned_abs().trailing_zeros() >= bits - p { "sum-exact(trailing zeros)" } else { "sum-inexact" }
 }
 
 fn is_exact_half(m: u64, e: i32) -> bool {
@@ -372,6 +405,7 @@ fn ot_round_cases(s: &mut Session, rng: &mut Rng, thorough: bool) {
                     s.count(if odd { "ot_round:f64:odd-integer>=2^52" } else { "ot_round:f64:integer>=2^52" });
                     s.oracle("ot_round-idempotent-on-integers", rf == x, || format!("{}{}", tag("f64 -> f64"), if odd { " [odd integer of magnitude in [2^52, 2^53)]" } else { "" }), || format!("got {}", show(dec64(rf))));
                 }
+                s.count(&format!("ot_round:f64:{}", sum_class(neg, m, e, 53)));
                 s.count(if is_exact_half(m, e) {
                     if neg { "ot_round:f64:negative-exact-half" } else { "ot_round:f64:positive-exact-half" }
                 } else { "ot_round:f64:other" });
@@ -390,6 +424,17 @@ fn ot_round_cases(s: &mut Session, rng: &mut Rng, thorough: bool) {
         s.case("OtRound<(i16,i16)> for Point", format!("otr.point {} {}", bits, y.to_bits()), match &p { Ok((a, b)) => format!("{a} {b}"), Err(_) => "trap".into() });
         let v: kurbo::Vec2 = kurbo::Vec2::new(x, y).ot_round();
         s.case("OtRound<Vec2> for Vec2", format!("otr.vec2 {} {}", bits, y.to_bits()), format!("{} {}", show(dec64(v.x)), show(dec64(v.y))));
+        // exact arithmetic, per component (the two documented double-rounding inputs are covered by the scalar oracles)
+        if let (Fx::Fin(nx, mx, ex), Fx::Fin(ny, my, ey)) = (dec64(x), dec64(y)) {
+            if x != below_half64 && y != below_half64 {
+                let want = (half_up_sat(nx, mx, ex, -32768, 32767) as i16, half_up_sat(ny, my, ey, -32768, 32767) as i16);
+                s.oracle("ot_round-point=half-up-then-saturate", p == Ok(want), || format!("Point({x:e}, {y:e}) (bits {:#x}, {:#x})", bits, y.to_bits()), || format!("got {p:?} want {want:?}"));
+                if x.abs() < 4503599627370496.0 && y.abs() < 4503599627370496.0 {
+                    let wv = (half_up_sat(nx, mx, ex, -(1i64 << 53), 1i64 << 53) as f64, half_up_sat(ny, my, ey, -(1i64 << 53), 1i64 << 53) as f64);
+                    s.oracle("ot_round-vec2=half-up", v.x == wv.0 && v.y == wv.1, || format!("Vec2({x:e}, {y:e}) (bits {:#x}, {:#x})", bits, y.to_bits()), || format!("got ({}, {}) want ({}, {})", show(dec64(v.x)), show(dec64(v.y)), wv.0, wv.1));
+                }
+            }
+        }
         let (sx, sy): (i16, i16) = (x.ot_round(), y.ot_round());
         let (fx, fy): (f64, f64) = (x.ot_round(), y.ot_round());
         s.oracle("ot_round-point-is-componentwise-scalar", p == Ok((sx, sy)), || format!("Point(bits {:#x}, bits {:#x}) = ({x:e}, {y:e})", bits, y.to_bits()), || format!("got {p:?} want ({sx}, {sy})"));
@@ -407,6 +452,7 @@ fn ot_round_cases(s: &mut Session, rng: &mut Rng, thorough: bool) {
         if let Fx::Fin(neg, m, e) = dec32(x) {
             let tag = |what: &str| format!("{what}: {}{}*2^{} (f32 bits {:#x}){}", if neg { "-" } else { "" }, m, e, bits,
                 if x == below_half32 { " [largest f32 below 0.5]" } else { "" });
+            s.count(&format!("ot_round:f32:{}", sum_class(neg, m, e, 24)));
             let w16 = half_up_sat(neg, m, e, -32768, 32767);
             s.oracle("ot_round=half-up-then-saturate", r16 == Ok(w16 as i16), || tag("f32 -> i16"), || format!("got {r16:?} want {w16}"));
             let wu = half_up_sat(neg, m, e, 0, 65535);
